@@ -26,6 +26,7 @@ The architecture here is briefly:
 
 import collections
 import os
+import pickle
 import sys
 import queue
 import subprocess
@@ -318,7 +319,9 @@ class CompiledSubprocess:
 
         try:
             is_exception, traceback, result = pickle_load(self._get_process().stdout)
-        except EOFError as eof_error:
+        except (EOFError, pickle.UnpicklingError) as eof_error:
+            # An UnpicklingError means that the subprocess died half-way
+            # through writing its reply ("pickle data was truncated").
             try:
                 stderr = self._get_process().stderr.read().decode('utf-8', 'replace')
             except Exception as exc:
